@@ -72,13 +72,20 @@ def race_run(argvs, timeout=900):
     build_race_harness()
     found = []
     for argv in argvs:
-        p = subprocess.run([HARNESS_RACE] + [str(a) for a in argv], stdout=subprocess.DEVNULL, stderr=subprocess.PIPE, text=True,
-                           timeout=timeout, env=dict(os.environ, GORACE="halt_on_error=1"))
+        try:
+            p = subprocess.run([HARNESS_RACE] + [str(a) for a in argv], stdout=subprocess.DEVNULL, stderr=subprocess.PIPE, text=True,
+                               timeout=timeout, env=dict(os.environ, GORACE="halt_on_error=1"))
+        except subprocess.TimeoutExpired:
+            found.append((" ".join(map(str, argv)), ["(no DATA RACE report; the process hung)"]))
+            continue
         if "DATA RACE" in p.stderr:
             rep = p.stderr[p.stderr.index("WARNING: DATA RACE"):].splitlines()[:40]
             found.append((" ".join(map(str, argv)), rep))
         elif p.returncode != 0:
-            raise Internal("race harness %s failed (rc=%d): %s" % (argv, p.returncode, p.stderr[-1500:]))
+            if p.returncode == 2 and "usage:" in p.stderr:
+                raise Internal("race harness %s: bad invocation: %s" % (argv, p.stderr[-500:]))
+            # the process died without a race report (fatal error / unrecovered panic in the code under test): also a failing execution
+            found.append((" ".join(map(str, argv)), ["(no DATA RACE report; the process died)"] + [l for l in p.stderr.strip().splitlines() if l.strip()][:30]))
     return found
 
 
